@@ -233,7 +233,7 @@ Qed.
 Theorem total_thm : forall s : bytes,
   (exists v, from_json s = FValue v) \/ (exists e, from_json s = FExc e).
 Proof.
-  intros s. unfold from_json, load.
+  intros s. unfold from_json, load, load_at.
   pose proof (parse_next_total max_depth s 0) as H.
   destruct (parse_next max_depth s (length s) 0) as [[j off]|e]; simpl in *.
   - left; eauto.
@@ -242,7 +242,7 @@ Qed.
 
 Theorem load_total_thm : forall s : bytes, okres (fun _ => True) (load s).
 Proof.
-  intros. unfold load. eapply okres_bind. apply parse_next_total. intros [j o] _. simpl. auto.
+  intros. unfold load, load_at. eapply okres_bind. apply parse_next_total. intros [j o] _. simpl. auto.
 Qed.
 
 (* ================================================================== the text seen from an offset *)
@@ -515,6 +515,10 @@ Proof.
         rewrite Nat2Z.inj_succ, Z.pow_succ_r; lia.
 Qed.
 
+Lemma digits_rev_S : forall f n,
+  digits_rev (S f) n = digit_char (n mod 10) :: (if n / 10 =? 0 then [] else digits_rev f (n / 10)).
+Proof. reflexivity. Qed.
+
 Lemma print_nat_digits : forall n, 0 <= n -> all_digits (print_nat n).
 Proof.
   intros. unfold print_nat, all_digits. apply Forall_rev. apply digits_rev_digits; auto.
@@ -522,7 +526,8 @@ Qed.
 
 Lemma print_nat_nonempty : forall n, print_nat n <> [].
 Proof.
-  intros n H. unfold print_nat in H. simpl in H. apply app_eq_nil in H. destruct H; discriminate.
+  intros n H. unfold print_nat in H. change 20 with (S 19) in H. rewrite digits_rev_S in H. cbn [rev] in H.
+  apply app_eq_nil in H. destruct H; discriminate.
 Qed.
 
 Lemma print_nat_value : forall n, 0 <= n < 10 ^ 20 -> parse_num_int (print_nat n) = wrap64 n.
@@ -1162,11 +1167,12 @@ Proof.
   - exact parse_dump_bool.
 Qed.
 
-Lemma load_dump : forall j depth, jwf j -> jheight j <= max_depth -> load (dump depth j) = Ok j.
+Lemma load_at_dump : forall d j depth, jwf j -> jheight j <= d -> load_at d (dump depth j) = Ok j.
 Proof.
-  intros j depth Hwf Hh. unfold load.
-  destruct j; try (rewrite (parse_dump_all _ max_depth depth _ 0 [] Hwf Hh); [reflexivity|rewrite view_0, app_nil_r; reflexivity|exact I]).
+  intros d j depth Hwf Hh. unfold load_at.
+  destruct j; try (rewrite (parse_dump_all _ d depth _ 0 [] Hwf Hh); [reflexivity|rewrite view_0, app_nil_r; reflexivity|exact I]).
   (* a top-level integer: the cursor ends on its last digit *)
+  destruct d; [simpl in Hh; lia|].
   cbn [dump jwf] in *. destruct (print_int_head z) as (c & r & E & Hc).
   assert (Hv : view (print_int z) 0 = print_int z ++ []) by (rewrite view_0, app_nil_r; reflexivity).
   assert (Hv' := Hv). rewrite E in Hv' at 2. simpl in Hv'.
@@ -1176,9 +1182,12 @@ Proof.
   { destruct Hc as [->|Hc]. repeat split.
     destruct (is_digit_props c Hc) as (? & ? & ? & ? & ? & ? & ? & ? & ? & ?). rewrite Hc. repeat split; auto. }
   destruct Hsp as (H1 & H2 & H3 & H4 & H5 & H6 & H7 & H8).
-  unfold max_depth. rewrite (parse_next_dispatch _ _ 0 _ _ Hv' H1). rewrite H2, H3, H4, H5, H6, H7, H8. cbn [orb].
+  rewrite (parse_next_dispatch _ _ 0 _ _ Hv' H1). rewrite H2, H3, H4, H5, H6, H7, H8. cbn [orb].
   rewrite (parse_number_print z _ 0 [] Hwf Hv I). reflexivity.
 Qed.
+
+Lemma load_dump : forall j depth, jwf j -> jheight j <= max_depth -> load (dump depth j) = Ok j.
+Proof. intros. unfold load. apply load_at_dump; auto. Qed.
 
 (* ================================================================== std::map key order *)
 Lemma bytes_ltb_irrefl : forall a, bytes_ltb a a = false.
@@ -1580,15 +1589,14 @@ Proof.
   - intros b _ _. split; simpl; auto.
 Qed.
 
-Lemma load_inv_gen : forall d (t : bytes) (j : json),
-  ('(j, _) <- parse_next d t (length t) 0 ;; Ok j) = Ok j -> pinv d j.
+Lemma load_at_inv : forall d (t : bytes) (j : json), load_at d t = Ok j -> pinv d j.
 Proof.
-  intros d t j Hl. apply bind_ok in Hl. destruct Hl as ([j' o] & Hp & Hj). inversion Hj; subst j'.
+  intros d t j Hl. unfold load_at in Hl. apply bind_ok in Hl. destruct Hl as ([j' o] & Hp & Hj). inversion Hj; subst j'.
   eapply parse_next_inv; eauto.
 Qed.
 
 Lemma load_inv : forall (t : bytes) (j : json), load t = Ok j -> pinv max_depth j.
-Proof. intros t j H. exact (load_inv_gen max_depth t j H). Qed.
+Proof. intros t j. exact (load_at_inv max_depth t j). Qed.
 
 (* from_json(to_json(from_json(t))) = from_json(t) for every accepted text without doubles *)
 Theorem idempotent_thm : forall (t : bytes) (j : json),
